@@ -344,6 +344,45 @@ class TreeGen:
         return t
 
 
+def shadow_trees(rng, n):
+    """Trees in which the name an inner file includes ALSO exists in the directory of a file that was read EARLIER (the
+    main file's directory, a sibling's directory): only the -i directories and the directory of the including file may be
+    searched, in that order -- directories of files read before must not leak into the search."""
+    out = []
+    for k in range(n):
+        shape = k % 3
+        val = lambda tag: '    addi x{}, x0, {}\n'.format(5 + k % 20, 100 + 10 * k + {'right': 1, 'wrong': 2, 'inc': 3}[tag])
+        files = {}
+        incs = ['inc1'] if k % 4 != 3 else []
+        if shape == 0:
+            # main -> sub/b.asm -> defs.asm ; proj/defs.asm also exists
+            files['proj/main.asm'] = 'start:\n    addi x1, x0, 1\ninclude sub/b.asm\n    addi x2, x0, 2\n'
+            files['proj/sub/b.asm'] = '    addi x3, x0, 3\ninclude defs.asm\n'
+            files['proj/sub/defs.asm'] = val('right')
+            files['proj/defs.asm'] = val('wrong')
+        elif shape == 1:
+            # siblings: s1/a.asm then s2/b.asm, which includes x.asm that also exists in s1
+            files['proj/main.asm'] = 'include s1/a.asm\ninclude s2/b.asm\nend_:\n'
+            files['proj/s1/a.asm'] = 'include x.asm\n'
+            files['proj/s1/x.asm'] = val('wrong')
+            files['proj/s2/b.asm'] = 'include x.asm\n    addi x4, x0, 4\n'
+            files['proj/s2/x.asm'] = val('right')
+            # a.asm must find ITS x.asm: give it its own expected value by making the two differ
+            files['proj/s1/x.asm'] = '    addi x30, x0, 77\n'
+        else:
+            # three levels, the name exists at every level
+            files['proj/main.asm'] = '    addi x1, x0, 1\ninclude l1/a.asm\n'
+            files['proj/l1/a.asm'] = 'include l2/b.asm\n'
+            files['proj/l1/l2/b.asm'] = 'include k.asm\n'
+            files['proj/l1/l2/k.asm'] = val('right')
+            files['proj/l1/k.asm'] = val('wrong')
+            files['proj/k.asm'] = val('wrong')
+        if incs:
+            files['inc1/unrelated.asm'] = val('inc')
+        out.append(Tree(files, 'proj/main.asm', incs, ['proj', '.', 'decoy'], ['shadow', 'shadow-%d' % shape], dirs=['decoy'] + incs))
+    return out
+
+
 def error_trees():
     """hand-made trees whose reading fails (reader correspondence only) or is an edge of the syntax"""
     T = []
